@@ -38,19 +38,19 @@ type HarnessSpec struct {
 }
 
 type Spec struct {
-	Property   string            `json:"property"`
-	Package    string            `json:"package"`
-	Dir        string            `json:"dir"`
-	Files      []string          `json:"files"`
-	ExtraPkgs  []string          `json:"extra_packages"`
-	Overrides  map[string]string `json:"overrides"`
-	Harnesses  []HarnessSpec     `json:"harnesses"`
-	Assumes    []string          `json:"assumptions"`
-	Functions  []string          `json:"functions_under_test"`
-	Outside    []string          `json:"outside_claim"`
-	TimeoutMs  int               `json:"query_timeout_ms"`
-	Level      string            `json:"level"`
-	MaskTests  []string          `json:"mask_tests"` // additional dirs whose _test.go files get masked in replay
+	Property  string            `json:"property"`
+	Package   string            `json:"package"`
+	Dir       string            `json:"dir"`
+	Files     []string          `json:"files"`
+	ExtraPkgs []string          `json:"extra_packages"`
+	Overrides map[string]string `json:"overrides"`
+	Harnesses []HarnessSpec     `json:"harnesses"`
+	Assumes   []string          `json:"assumptions"`
+	Functions []string          `json:"functions_under_test"`
+	Outside   []string          `json:"outside_claim"`
+	TimeoutMs int               `json:"query_timeout_ms"`
+	Level     string            `json:"level"`
+	MaskTests []string          `json:"mask_tests"` // additional dirs whose _test.go files get masked in replay
 }
 
 type KnownFinding struct {
@@ -63,8 +63,9 @@ type KnownFinding struct {
 }
 
 // loadKnown parses /verif/known_findings.txt. Line formats:
-//   known: property=C16 harness=ZZ_x match="substring of msg @ where" :: what fails
-//   fixed: property=C02 <commit> <what failed>          (informational; suppresses nothing)
+//
+//	known: property=C16 harness=ZZ_x match="substring of msg @ where" :: what fails
+//	fixed: property=C02 <commit> <what failed>          (informational; suppresses nothing)
 func loadKnown(path string) []KnownFinding {
 	var out []KnownFinding
 	f, err := os.Open(path)
@@ -716,7 +717,7 @@ func TestZZReplay(t *testing.T) {
 	ovb, _ := json.Marshal(map[string]interface{}{"Replace": repl})
 	ovf := filepath.Join(tmp, "overlay.json")
 	os.WriteFile(ovf, ovb, 0644)
-	cmd := exec.Command("go", "test", "-vet=off", "-count=1", "-run", "^TestZZReplay$", "-timeout", "300s", "-overlay", ovf, "./"+spec.Dir+"/")
+	cmd := exec.Command("go", "test", "-tags", "verif", "-vet=off", "-count=1", "-run", "^TestZZReplay$", "-timeout", "300s", "-overlay", ovf, "./"+spec.Dir+"/")
 	cmd.Dir = repoDir
 	cmd.Env = append(os.Environ(), "GOFLAGS=-mod=mod", "GOPROXY=off", "GOSUMDB=off", "GOTOOLCHAIN=local", "ZZSYM_REPLAY="+replayPath)
 	out, _ := cmd.CombinedOutput()
